@@ -22,7 +22,7 @@ META = {
                   "earlier in the same call, every shuffle is preceded by its own seed, writes into the module-level symbol table only bind 'a<i>' to the i-th parameter symbol, all other "
                   "files are opened with 'w' and shell redirections use '>'; no function of the generation and fitting modules writes a module-level container other than the symbol table "
                   "(a cache that survives a call would make the next call depend on it).",
-    "technique": "frame obligations on the AST (structural) + differential testing of call histories against a fresh-process reference, byte comparison of all produced files",
+    "technique": "frame obligations F1-F8 on the AST (structural: append-after-truncate, seeded shuffles, symbol-table writes and registration before parsing, module state, numpy error / print state) + differential testing of call histories against a fresh-process reference, byte comparison of all produced files",
 }
 CHECKER = "./bin/check C16 (harness/rt_c16.py: one process per history, sha256 of the produced files vs fresh-process reference)"
 
